@@ -21,7 +21,7 @@ from models.stmt_model import N, ID, INT
 
 NAME = "T"
 SPECS = {"int": ("int",), "ulong": ("unsigned", "long")}
-INTRO_SHAPES = ("plain", "ptr", "arr")
+INTRO_SHAPES = ("plain", "ptr", "arr", "fnptr", "fn", "paren", "arrfnptr")
 CONTEXTS = ("file", "funcbody", "block")
 KINDS = ("typedef", "td-over-obj", "obj-over-td")
 
@@ -104,7 +104,10 @@ USE_FORMS = _use_forms()
 
 
 def _intro_text(shape):
-    return {"plain": NAME, "ptr": "* " + NAME, "arr": NAME + " [ 2 ]"}[shape]
+    return {"plain": NAME, "ptr": "* " + NAME, "arr": NAME + " [ 2 ]",
+            # function-shaped and parenthesised introducing declarators (lead, round 6)
+            "fnptr": "( * " + NAME + " ) ( void )", "fn": NAME + " ( void )", "paren": "( " + NAME + " )",
+            "arrfnptr": "( * " + NAME + " [ 2 ] ) ( int )"}[shape]
 
 
 def positions():
